@@ -4,6 +4,7 @@
      c13 fn <name> <arg>…                      the cse-wrapped library function `name` (`cseWrap`), cse parameters from
                                                Generated/CseMeta.lean, scalar semantics from the small table `scalarFn`
      c13 fit <h> <w> <res>                     fit_to_range(res) for an h×w target
+     c13 wbc <d> <r0> <c0> <h> <w> op|fn|val … the same with operand chains of depth d (context stack model)
      c13 wb <r0> <c0> <h> <w> op|fn|val …      an array formula entered over the h×w target at (row r0, column c0):
                                                `<evaluate(target)> ; <table of member cells>`
    Operands / results: a scalar token or `a:<rows>:<cols> v…`; `!raise` = the evaluation raises.
@@ -112,6 +113,21 @@ def handle : List String → String
     match h.toNat?, w.toNat?, decArgs? rest with
     | some h, some w, some [r] => encArr (fitToRange (toOpnd r) h w)
     | _, _, _ => "!bad-arg"
+  | "c13" :: "wbc" :: d :: r0 :: c0 :: h :: w :: rest =>
+    -- as `wb`, the operands being reached through chains of `d` uncomputed formula cells: the value is fitted under
+    -- the context the stack discipline (`runForest`) leaves for the array formula
+    match d.toNat?, r0.toNat?, c0.toNat?, h.toNat?, w.toNat?, formulaValue rest with
+    | some d, some r0, some c0, some h, some w, some v =>
+      match v with
+      | none => "!raise"
+      | some res =>
+        if h = 1 ∧ w = 1 then
+          let v := encArr [[singleCell res]]
+          v ++ " ; " ++ v
+        else
+          let tgt := toArr (fitCtx (seenByArrayFormula h w d 2) res)
+          encArr tgt ++ " ; " ++ encArr (membersOf tgt r0 c0 h w)
+    | _, _, _, _, _, _ => "!bad-arg"
   | "c13" :: "wb" :: r0 :: c0 :: h :: w :: rest =>
     match r0.toNat?, c0.toNat?, h.toNat?, w.toNat?, formulaValue rest with
     | some r0, some c0, some h, some w, some v =>
